@@ -26,13 +26,20 @@ pub struct Cfg {
     pub n_meta: u8,
     /// record limit per blob (None = practically unlimited: rotation only through the lifecycle API)
     pub max_records: Option<u64>,
+    /// with `max_records`: rotation debounce interval 0 (verif builder hook), so that the background
+    /// worker replaces the active blob as soon as the limit is reached; the driver mirrors every
+    /// observed rotation into the model after the step
+    pub auto_rotate: bool,
+    /// every `Restart` re-opens the directory under another bloom configuration (1 -> 3 -> 1 ... with an
+    /// occasional 0): closed blobs written under different configurations then share filter groups
+    pub bloom_flip: bool,
 }
 
 impl Cfg {
     pub fn to_json(&self) -> Value {
         json!({"keylen": self.keylen, "bloom": self.bloom, "group": self.group, "allow_dup": self.allow_dup,
                "mt": self.mt, "validate_data": self.validate_data, "ignore_corrupted": self.ignore_corrupted,
-               "max_dirty": self.max_dirty, "key_salt": self.key_salt, "n_keys": self.n_keys, "n_meta": self.n_meta, "max_records": self.max_records})
+               "max_dirty": self.max_dirty, "key_salt": self.key_salt, "n_keys": self.n_keys, "n_meta": self.n_meta, "max_records": self.max_records, "auto_rotate": self.auto_rotate, "bloom_flip": self.bloom_flip})
     }
     pub fn from_json(v: &Value) -> Option<Cfg> {
         Some(Cfg {
@@ -48,14 +55,21 @@ impl Cfg {
             n_keys: v.get("n_keys")?.as_u64()? as u16,
             n_meta: v.get("n_meta")?.as_u64()? as u8,
             max_records: v.get("max_records").and_then(|x| x.as_u64()),
+            auto_rotate: v.get("auto_rotate").and_then(|x| x.as_bool()).unwrap_or(false),
+            bloom_flip: v.get("bloom_flip").and_then(|x| x.as_bool()).unwrap_or(false),
         })
     }
     pub fn default_for(n_keys: u16, n_meta: u8) -> Cfg {
         Cfg {
             keylen: 8, bloom: 1, group: 2, allow_dup: true, mt: true, validate_data: false,
-            ignore_corrupted: false, max_dirty: None, key_salt: 1, n_keys, n_meta, max_records: None,
+            ignore_corrupted: false, max_dirty: None, key_salt: 1, n_keys, n_meta, max_records: None, auto_rotate: false, bloom_flip: false,
         }
     }
+}
+
+/// same bit count as `small_bloom`, three hash functions
+pub fn small_bloom_3() -> BloomConfig {
+    BloomConfig { hashers_count: 3, ..small_bloom() }
 }
 
 pub fn small_bloom() -> BloomConfig {
@@ -198,6 +212,9 @@ pub struct Stats {
     pub closed_in_mem_seen: u64,
     pub disk_exact: u64,
     pub disk_bounded: u64,
+    pub auto_rotations: u64,
+    pub bloom_flips: u64,
+    pub overfull_steps: u64,
     pub abstract_states: std::collections::BTreeSet<u32>,
 }
 
@@ -258,10 +275,14 @@ pub fn builder_for(cfg: &Cfg, dir: &Path) -> Builder {
     match cfg.bloom {
         1 => b = b.set_filter_config(small_bloom()),
         2 => b = b.set_filter_config(BloomConfig::default()),
+        3 => b = b.set_filter_config(small_bloom_3()),
         _ => {}
     }
     if let Some(d) = cfg.max_dirty {
         b = b.set_max_dirty_bytes_before_sync(d);
+    }
+    if cfg.auto_rotate {
+        b = b.verif_debounce_interval_ms(0);
     }
     b
 }
@@ -346,6 +367,40 @@ impl<const N: usize> Driver<N> {
     }
 
     pub async fn step(&mut self, op: &Op) -> Result<(), Mismatch> {
+        let auto = self.cfg.auto_rotate && self.cfg.max_records.is_some() && matches!(op, Op::Put { .. } | Op::Del { .. });
+        let before = if auto { Some((self.st().next_blob_id(), self.model.next_id)) } else { None };
+        self.step_inner(op).await?;
+        if let Some((real_before, model_before)) = before {
+            self.sync_rotation(real_before, model_before).await?;
+        }
+        Ok(())
+    }
+
+    /// Automatic rotation (record limit reached, debounce 0): the worker has handled the request once
+    /// the barrier returns. Whether it rotated is read from the id counter; a rotation is legal only
+    /// when the model's active blob has reached the limit, and is then mirrored into the model. Not
+    /// rotating yet is legal too (the blob must be older than the debounce interval: > 0 ms).
+    async fn sync_rotation(&mut self, real_before: usize, model_before: usize) -> Result<(), Mismatch> {
+        let limit = self.cfg.max_records.unwrap_or(u64::MAX);
+        self.barrier(true).await?;
+        let real_after = self.st().next_blob_id();
+        let expected = real_before + (self.model.next_id - model_before);
+        let cnt = self.model.records_in_active().unwrap_or(0) as u64;
+        if real_after == expected {
+            if cnt >= limit {
+                self.stats.overfull_steps += 1;
+            }
+            return Ok(());
+        }
+        if real_after == expected + 1 && cnt >= limit {
+            self.model.force_update(true);
+            self.stats.auto_rotations += 1;
+            return Ok(());
+        }
+        Err(self.mm(Class::Lifecycle, "unexpected-rotation", format!("blob id counter moved from {} to {} (expected {}) with {} records in the model's active blob, limit {}", real_before, real_after, expected, cnt, limit)))
+    }
+
+    async fn step_inner(&mut self, op: &Op) -> Result<(), Mismatch> {
         self.step += 1;
         self.stats.steps += 1;
         self.quiescent = false;
@@ -465,6 +520,14 @@ impl<const N: usize> Driver<N> {
                 }
                 self.model.restart(*lazy);
                 self.stats.restarts += 1;
+                if self.cfg.bloom_flip {
+                    self.cfg.bloom = match self.cfg.bloom {
+                        1 => 3,
+                        3 if self.stats.restarts % 3 == 0 => 0,
+                        _ => 1,
+                    };
+                    self.stats.bloom_flips += 1;
+                }
                 self.offloaded = false;
                 self.open(*lazy).await?;
             }
